@@ -185,6 +185,40 @@ def _designations(w, h, res):
                 if val != n:
                     res.violation('C18/wrong-signal-number:add', 'add stop_signal=%r then get says %r' % (d, val))
                 yield w.call('rm', name='x%d' % d, waiting=True)
+            else:
+                # a name / numeric string in the options of set and add: refused (they take integers), or -- wherever
+                # it is accepted -- the same signal as everywhere else, also when the watcher is stopped later
+                rep = yield w.call('set', name='a', options={'stop_signal': d}, waiting=True)
+                if isinstance(rep, dict) and rep.get('status') == 'ok':
+                    mid = w.req('get', name='a', keys=['stop_signal'])
+                    val = ((w.reply(mid) or {}).get('options') or {}).get('stop_signal')
+                    res.obs['valid:set(by-name)'] += 1
+                    if val != n:
+                        res.violation('C18/wrong-signal-number:set[%s]' % cls, 'set stop_signal=%r was accepted, get says %r '
+                                      '(signal %d)' % (d, val, n))
+                    yield w.call('set', name='a', options={'stop_signal': 15}, waiting=True)
+                import zlib
+                xn = 'xs%d' % (zlib.crc32(str(d).encode()) % 100000)
+                rep = yield w.call('add', name=xn, cmd='w_xs', start=True, waiting=True,
+                                   options={'stop_signal': d, 'graceful_timeout': 0.1, 'numprocesses': 1})
+                if isinstance(rep, dict) and rep.get('status') == 'ok':
+                    res.obs['valid:add(by-name)'] += 1
+                    yield w.settle(10)
+                    mine = k.live('w_xs')
+                    l0 = len(k.log)
+                    rep2 = yield w.call('stop', name=xn, waiting=True)
+                    yield w.settle(10)
+                    got = circus_signals(k, l0)
+                    if any((got.get(p) or [None])[0] != n for p in mine) or k.live('w_xs'):
+                        res.violation('C18/wrong-signal-number:add[%s]' % cls,
+                                      'add with stop_signal=%r was accepted; stopping that watcher should first deliver %d to '
+                                      '%s: kernel saw %s, stop answered %s, still alive %s'
+                                      % (d, n, mine, got, str(rep2)[:80], k.live('w_xs')))
+                    for p in k.live('w_xs'):
+                        k.kill(p, 9, sender='ext')
+                    yield w.call('rm', name=xn, waiting=True)
+                else:
+                    res.obs['add_by_name_refused'] += 1
         if res.sample is None:
             res.sample = {'designations': [t[0] for t in table[:12]], 'entry_points': ['signal', 'kill', 'set', 'add']}
     else:
